@@ -78,6 +78,15 @@ class FloCheck(Check):
     feature_probes = ()
     project = None      # optional: event -> bool, the events this property is about (see execute)
 
+    directed_files = ()   # names (without .json) of plans under checks/directed/: regression shapes found by soak runs
+
+    def directed(self):
+        import json
+        import os
+        from simkit.core import uncanon
+        d = os.path.join(os.path.dirname(os.path.abspath(__file__)), "directed")
+        return [uncanon(json.load(open(os.path.join(d, n + ".json")))) for n in self.directed_files]
+
     def generate(self, S, index, tier):
         return gen_program(S.gen, self.cfg)
 
